@@ -16,8 +16,11 @@ ModalLogics == {L \in LogicNames : Logic(L).modal}
 WorldsUpTo(n) == 0..(n - 1)
 
 GenCases ==
-  UNION {{[logic |-> L, worlds |-> SetToSeq(WorldsUpTo(n)), access |-> SetToSeq(R)]
-           : R \in SUBSET (WorldsUpTo(n) \X WorldsUpTo(n))}
+  \* bare = 1: the branch holds the access nodes only (no world carries a sentence)
+  \* split = 1 (serial logics): a disjunction at world 0 forks the tableau, the frame rule must serve every branch
+  UNION {{[logic |-> L, worlds |-> SetToSeq(WorldsUpTo(n)), access |-> SetToSeq(R), bare |-> bs[1], split |-> bs[2]]
+           : R \in SUBSET (WorldsUpTo(n) \X WorldsUpTo(n)),
+             bs \in {<<0, 0>>, <<1, 0>>} \cup (IF Logic(L).frame = "serial" THEN {<<0, 1>>} ELSE {})}
          : <<L, n>> \in ({<<L, 3>> : L \in ModalLogics \cap SeqSetOf(NW3)}
                          \cup {<<L, 2>> : L \in ModalLogics \cap SeqSetOf(NW2)})}
 
@@ -29,24 +32,28 @@ GenPost == LET seq == SetToSeq(GenCases)
 
 Cases == ndJsonDeserialize(IOEnv.CASES)
 
-Fail(c, clause) == [id |-> c.id, logic |-> c.logic, clause |-> clause, worlds |-> c.worlds,
-                    access |-> c.access, result |-> c.result]
+Fail(c, clause) == [id |-> c.id, logic |-> c.logic, clause |-> clause, worlds |-> c.worlds, bare |-> c.bare,
+                    split |-> c.split, access |-> c.access, result |-> c.results]
+
+BranchFail(c, res) ==
+  LET cls == Logic(c.logic).frame
+      R == SeqSetOf(c.access)
+      Ws == IF c.bare = 1 THEN {} ELSE SeqSetOf(c.worlds)              \* worlds that carry a sentence
+      W == IF c.bare = 1 THEN {p[1] : p \in R} \cup {p[2] : p \in R} ELSE SeqSetOf(c.worlds)
+      Res == SeqSetOf(res)
+  IN IF cls = "serial"
+     THEN (IF ~(R \subseteq Res) THEN "AccessLost"
+           ELSE IF \E w \in Ws : SuccR(Res, w) = {} THEN "SerialSuccessorMissing"
+           ELSE IF \E p \in Res \ R : p[2] \in W \/ SuccR(R, p[1]) # {} THEN "SerialAddsMoreThanRequired"
+           ELSE "")
+     ELSE IF Res # FrameClosure(cls, W, R) THEN "FrameClosure" ELSE ""
 
 Failures(c) ==
-  LET cls == Logic(c.logic).frame
-      W == SeqSetOf(c.worlds)
-      R == SeqSetOf(c.access)
-      Res == SeqSetOf(c.result)
-  IN IF c.err # "" THEN <<Fail(c, "Raised")>>
-     ELSE IF c.nbranches # 1 \/ c.closed = 1 THEN <<Fail(c, "FrameRulesForkOrClose")>>
-     ELSE IF c.flags # 0 THEN <<Fail(c, "UnexpectedFlagNode")>>
-     ELSE IF cls = "serial"
-          THEN (IF ~(R \subseteq Res) THEN <<Fail(c, "AccessLost")>>
-                ELSE IF \E w \in W : SuccR(Res, w) = {} THEN <<Fail(c, "SerialSuccessorMissing")>>
-                ELSE IF \E p \in Res \ R : p[2] \in W \/ SuccR(R, p[1]) # {} THEN <<Fail(c, "SerialAddsMoreThanRequired")>>
-                ELSE <<>>)
-     ELSE IF Res # FrameClosure(cls, W, R) THEN <<Fail(c, "FrameClosure")>>
-     ELSE <<>>
+  IF c.err # "" THEN <<Fail(c, "Raised")>>
+  ELSE IF c.nbranches # 1 + c.split \/ c.closed = 1 THEN <<Fail(c, "FrameRulesForkOrClose")>>
+  ELSE IF c.flags # 0 THEN <<Fail(c, "UnexpectedFlagNode")>>
+  ELSE LET badb == {j \in 1..Len(c.results) : BranchFail(c, c.results[j]) # ""}
+       IN IF badb = {} THEN <<>> ELSE <<Fail(c, BranchFail(c, c.results[CHOOSE j \in badb : TRUE]))>>
 
 VARIABLES i, bad
 B == INSTANCE Batch
